@@ -1797,3 +1797,16 @@ theorem encodeProj_us (cfg : Cfg) (p : Proj) (h : ∃ c ∈ p.connWDs, c.delay.u
   exact ⟨e, by simp [he]⟩
 
 end NmlVerif.Hdf5
+
+namespace NmlVerif.Hdf5
+
+/-! ## small helpers for the concrete examples in `Props/C05.lean` -/
+
+theorem forall_one {α : Type} {P : α → Prop} {a : α} (h : P a) : ∀ x ∈ [a], P x := by
+  intro x hx; simp at hx; rw [hx]; exact h
+theorem forall_two {α : Type} {P : α → Prop} {a b : α} (ha : P a) (hb : P b) : ∀ x ∈ [a, b], P x := by
+  intro x hx; simp at hx; rcases hx with rfl | rfl <;> assumption
+
+theorem connExact_id (c : Conn) : ConnExact id c := ⟨rfl, rfl, rfl, rfl⟩
+
+end NmlVerif.Hdf5
